@@ -8,6 +8,7 @@ package stdlib_contracts
 //@ assumed
 //@ pure
 //@ ensures result1 == nil ==> nb58.b58ok(str) && string(result0) == nb58.b58dec(str)
+//@ ensures result1 != nil ==> !nb58.b58ok(str)
 //@ ensures result1 == nil ==> fresh(result0)
 
 //@ package github.com/nspcc-dev/neo-go/pkg/crypto/hash
